@@ -1,6 +1,7 @@
 """Findings, obligations, evidence files, known findings, exit codes."""
 import json
 import os
+import tempfile
 import time
 
 VERIF = os.path.dirname(os.path.dirname(os.path.abspath(__file__)))
@@ -66,6 +67,8 @@ def load_known():
 
 
 def write_evidence(res, tier, wall, info, violations, known_hit, broken=None):
+    if os.environ.get("ACQ_NO_EVIDENCE"):
+        return None  # sensitivity runs against scratch copies never touch evidence/
     os.makedirs(os.path.join(VERIF, "evidence"), exist_ok=True)
     ob = res.obligations
     by_rule = {}
@@ -171,6 +174,8 @@ def conclude(res, tier, t0, info):
     if new:
         # a violation explains a dropped instance count; report the violation
         rp = os.path.join(VERIF, "evidence", "replay", res.pid + ".json")
+        if os.environ.get("ACQ_NO_EVIDENCE"):
+            rp = os.path.join(tempfile.gettempdir(), "acq-replay-%d-%s.json" % (os.getpid(), res.pid))
         with open(rp, "w") as f:
             json.dump({"property": res.pid,
                        "findings": [x.as_dict() for x in new]}, f, indent=1)
